@@ -674,6 +674,8 @@ class TensorDiagram:
             TensorComputationError: If the tensors have no unused indices or the dimensions do not match.
 
         """
+        n_nodes, index_count = len(self._nodes), self._index_count
+
         # First step: Find nodes if they are already in the diagram
         source_index, target_index = None, None
         for index, node in enumerate(self._nodes):
@@ -698,19 +700,23 @@ class TensorDiagram:
                 target_index = len(self._nodes)
                 free_target = self.add_node(target)[1]
 
+        # Third step: Pick some free indices (a rejected edge leaves the diagram as it was)
         if len(free_source) == 0 or len(free_target) == 0:
-            raise TensorComputationError("Could not add the edge because no indices are left.")
-
-        # Third step: Pick some free indices
-        i = free_source.pop(0)
-        j = free_target.pop(0)
-
-        if source.shape[i] != target.shape[j]:
-            raise TensorComputationError(
-                f"Dimension of tensors is inconsistent, encountered dimensions {source.shape[i]} and {target.shape[j]}."
+            error = "Could not add the edge because no indices are left."
+        elif source.shape[free_source[0]] != target.shape[free_target[0]]:
+            error = (
+                "Dimension of tensors is inconsistent, "
+                f"encountered dimensions {source.shape[free_source[0]]} and {target.shape[free_target[0]]}."
             )
+        else:
+            i = free_source.pop(0)
+            j = free_target.pop(0)
+            self._contraction_list.append((source_index, target_index, i, j))
+            return
 
-        self._contraction_list.append((source_index, target_index, i, j))
+        del self._nodes[n_nodes:], self._unused_indices[n_nodes:], self._node_positions[n_nodes:]
+        self._index_count = index_count
+        raise TensorComputationError(error)
 
     def calculate(self) -> Tensor:
         """Calculates the result of the diagram.
